@@ -22,7 +22,7 @@ CHECKS = {
  "C08": ("model_checking", "trace validation against FixTrace.tla (model vs fresh parse of the emitted text)", "6 C08",
    "After every traced fix run the text the model would be written as is parsed afresh by the real parser; TLC compares kinds, values, roles and indent levels with the model (C08_Accepted, C08_SameTokens, C08_SameIndent).", FIX_NOTE),
  "C09": ("model_checking", "trace validation against FixTrace.tla (text after each of n successive --fix runs)", "6 C09",
-   "Design: Converge.tla - idempotent rules (C10) + phase discipline + canonical write-back (C08) imply that a second run changes nothing, for every disturbance relation (3 mutants, one per mechanism); FixSchedule.tla for the clean-up / indent points. "
+   "Design: Converge.tla - idempotent rules (C10) + phase discipline + canonical write-back (C08) imply that a second run changes nothing, for every disturbance relation (TLC up to 5 rules, 3 mutants, one per mechanism; TLAPS proof ConvergeProof.tla for any number of rules); FixSchedule.tla for the clean-up / indent points. "
    "Binding: every default-configuration and smart_tabs input is fixed 2 (quick) / 4 (thorough) times in a row exactly as the CLI would; TLC checks second-fix-changes-nothing, no oscillation, eventually constant, and the schedule clauses on every trace.", FIX_NOTE),
  "C10": ("model_checking", "trace validation against FixTrace.tla (Refix probe after every changing fix)", "6 C10",
    "After every rule application that changed the list, the same rule is analysed, fixed and analysed again on a deep copy; the spec's Refix step must stutter (C10_RefixChangesNothing, C10_OnlyUnrepairableLeft).", FIX_NOTE),
@@ -85,7 +85,8 @@ na = [{"property_id": p, "reason": "check not built yet (work in progress; DESIG
 m = {"version": 1, "setup_cmd": "./setup.sh",
      "hooks": {"guard": "VSG_VERIF_TRACE", "enable": "checks run VSG from /repo's working tree through /verif/harness; the add-only wrappers of harness/hooks.py are installed from outside (monkeypatching) only when VSG_VERIF_TRACE=1; no hook code lives in /repo",
                "baseline_off_cmd": "cd /repo && /venv/bin/python -m pytest -q -p no:cacheprovider --timeout=900 --continue-on-collection-errors", "source_commits": [], "add_only": True},
-     "engines": [{"name": "tlc", "path": "/opt/veriftools/tla/tla2tools.jar", "serves_properties": sorted(CHECKS), "kind_free_text": "TLC 1.8 model checker: design-level configs spec/MC_*.cfg, mutants spec/Mutant_*.cfg, trace validation spec/*Trace.tla"}],
+     "engines": [{"name": "tlc", "path": "/opt/veriftools/tla/tla2tools.jar", "serves_properties": sorted(CHECKS), "kind_free_text": "TLC 1.8 model checker: design-level configs spec/MC_*.cfg, mutants spec/Mutant_*.cfg, trace validation spec/*Trace.tla"},
+                 {"name": "tlapm", "path": "/usr/local/bin/tlapm", "serves_properties": ["C09"], "kind_free_text": "TLA+ proof system: spec/ConvergeProof.tla proves the convergence argument of Converge.tla for any number of rules (47 obligations); an extra next to the TLC runs"}],
      "checks": checks,
      "notes": "One entry point ./check <ID>. Properties of one family share one cached collection per tree hash (.cache/). Known genuine defects: known_findings.json. Seeded breaking changes: seeded/.",
      "not_applicable": na}
